@@ -67,6 +67,9 @@ func C16(run *mon.Run) {
 	var wg sync.WaitGroup
 	sem := make(chan struct{}, 16)
 	for ki, key := range keys {
+		if ki > 0 && ki <= soloWorkers {
+			wg.Wait() // the first workers run alone (see soloWorkers)
+		}
 		wg.Add(1)
 		sem <- struct{}{}
 		go func(ki int, key namedKey) {
